@@ -508,7 +508,11 @@ pub mod denial {
         let mut w = TraceWriter::create(out);
         let mut rng = Rng::new(seed);
         let alphabet: [&[u8]; 8] = [b"a", b"b", b"c", b"d", b"A", b"B", b"*", b"x1"];
-        let menus: [&[u16]; 9] = [&[1], &[1, 28], &[16], &[15, 16, 257], &[2], &[2, 43], &[2, 1], &[33], &[2]];
+        // [2, 6, 15]: the collection also holds the delegated child's apex
+        // data (SOA, MX) at the delegation point
+        let menus: [&[u16]; 11] = [&[1], &[1, 28], &[16], &[15, 16, 257], &[2], &[2, 43], &[2, 1], &[33], &[2],
+                                   &[2, 6, 15], &[2, 43, 6]];
+        let thorough = verif_harness::common::tier_thorough();
         let mut z = 0;
         while z < zones {
             let apex: Vec<Vec<u8>> = if rng.chance(1, 2) { vec![b"ex".to_vec()] } else { vec![b"Zone".to_vec(), b"ex".to_vec()] };
@@ -536,10 +540,50 @@ pub mod denial {
                 }
                 n.extend(base.iter().cloned());
                 names.push(n.clone());
-                for t in menus[rng.below(9) as usize] {
+                for t in menus[rng.below(11) as usize] {
                     if seen.insert((lower_labels(&n), *t)) {
                         recs.push((n.clone(), *t));
                     }
+                }
+            }
+            // limit shapes: an owner name of wire length 253..255 made of
+            // 63-octet labels; (thorough) the maximum number of labels
+            let apex_wire: usize = apex.iter().map(|l| l.len() + 1).sum::<usize>() + 1;
+            if rng.chance(1, 2) {
+                let total = 253 + rng.below(3) as usize;
+                let mut room = total - apex_wire;
+                let mut n: Vec<Vec<u8>> = vec![];
+                while room > 0 {
+                    let l = std::cmp::min(63, room - 1);
+                    if l == 0 {
+                        break;
+                    }
+                    n.push((0..l).map(|i| if rng.chance(1, 4) { b'A' + (i % 7) as u8 } else { b'a' + (i % 7) as u8 }).collect());
+                    room -= l + 1;
+                }
+                if room == 0 {
+                    n.reverse();
+                    n.extend(apex.iter().cloned());
+                    if seen.insert((lower_labels(&n), 1)) {
+                        recs.push((n.clone(), 1));
+                        names.push(n);
+                    }
+                }
+            }
+            if thorough && rng.chance(1, 4) {
+                let mut room = 254 + rng.below(2) as usize - apex_wire;
+                let mut n: Vec<Vec<u8>> = vec![];
+                if room % 2 == 1 {
+                    n.push(b"xy".to_vec());
+                    room -= 3;
+                }
+                while room >= 2 {
+                    n.push(vec![b'a' + (room % 3) as u8]);
+                    room -= 2;
+                }
+                n.extend(apex.iter().cloned());
+                if seen.insert((lower_labels(&n), 16)) {
+                    recs.push((n.clone(), 16));
                 }
             }
             if rng.chance(1, 3) {
